@@ -258,6 +258,14 @@ def make_device(net, spec):
 _installed = {}
 
 
+def silence_keyboard():
+    """`pause` and `breakpoint` talk to the terminal; outside every claim, so they are
+    answered at once and kept quiet."""
+    import bardolph.vm.machine as machine_mod
+    machine_mod.getch = lambda: ' '
+    machine_mod.print = lambda *a, **k: None
+
+
 def install_real_mode():
     """units.py calls the builtin float(); in real-mode analysis that is the
     identity on numbers.  Rebinding the module-level name keeps /repo untouched."""
@@ -273,6 +281,7 @@ def configure(specs=DEFAULT_SPECS, clock='rec', output='rec', extra_settings=Non
               discover=True):
     """Fresh world.  Returns the Net."""
     install_real_mode()
+    silence_keyboard()
     net = Net()
     root = logging.getLogger()
     for h in list(root.handlers):
